@@ -48,7 +48,7 @@ TReset ==
 
 \* an edit of the environment is taken as recorded (the writer's discipline is the generator's business)
 C_Put ==
-  /\ ~drift /\ IsEv("EPut") /\ life = "run" /\ ~done /\ Ev.f \in Files
+  /\ ~drift /\ IsEv("EPut") /\ life \in {"run", "stopped"} /\ ~done /\ Ev.f \in Files
   /\ disk' = [disk EXCEPT ![Ev.f] = C(Ev.c)]
   /\ lg' = FALSE
   /\ last' = [a |-> "EPut"]
@@ -82,7 +82,7 @@ C_Step ==
   /\ IF Ev.e = "End" THEN Publish(FALSE, 0, obs', devUsed') ELSE TRUE
 
 Explained == IF IsEv("Look") THEN Now = LookRec(Ev)
-             ELSE IF IsEv("EPut") THEN life = "run" /\ ~done /\ Ev.f \in Files
+             ELSE IF IsEv("EPut") THEN life \in {"run", "stopped"} /\ ~done /\ Ev.f \in Files
              ELSE ENABLED Conform
 
 M_Step ==
